@@ -93,7 +93,7 @@ func init() {
 		Technique: "abstract interpretation + term agreement: facts at the refund call site of NewEpoch, argument terms of the refund, lock record literal, ordering of the lock record write before the transfer, subscription on fresh deploy",
 		Explanation: "D1 Lock writes {Balance:0, Until:Param(until), Parent:Param(from)} at the key of the lock account before the transfer is attempted and the credit leg preserves Until/Parent. " +
 			"D2 in NewEpoch the refund transfer is called only under Until ≠ 0 ∧ epochNum ≥ Until, with from = the scanned account key, to = Parent and amount = Balance of the record loaded from that same key; no store to an account record lies between that load and the re-read by the debit leg within one iteration, so the debit leg takes the Balance == amount branch and deletes the record (no second unlock); a partial burn keeps Until/Parent (C01.D2). " +
-			"D3 the fresh-deploy path of balance._deploy subscribes to the Netmap tick. D4 an iteration of the tick goes round the refund only with len(key) ≠ 20 ∨ Until = 0 ∨ epochNum < Until and the scan ends only on exhaustion; D5 a successful transfer of the whole loaded balance deletes the record for every amount, 0 included. R8: the loader rules of C01 (stored value exactly when present, fresh zero value otherwise, no shared package-level struct handed out) are decided here as well. R10: the stored layout of the Account record (field order and types as in storage) and the upgrade rules of Balance are decided here as well.",
+			"D3 the fresh-deploy path of balance._deploy subscribes to the Netmap tick. D4 an iteration of the tick goes round the refund only with len(key) ≠ 20 ∨ Until = 0 ∨ epochNum < Until and the scan ends only on exhaustion; D5 a successful transfer of the whole loaded balance deletes the record for every amount, 0 included. R8: the loader rules of C01 (stored value exactly when present, fresh zero value otherwise, no shared package-level struct handed out) are decided here as well. R10: the stored layout of the Account record (field order and types as in storage) and the upgrade rules of Balance are decided here as well. R11: every tick that returns normally has scanned the accounts (scan-always; a way round that depends on a stored key nobody in the contract writes is not a way).",
 		NotCovered:  "that all locks expiring at one tick are released by that tick depends on the VM iterator semantics while the scanned family is mutated (trusted: Find takes a snapshot at call time); timing over tick schedules.",
 		Assumptions: []string{"storage.Find enumerates a snapshot taken when it is called (neo-go MemCachedStore)"},
 		Run:         runC09,
@@ -334,7 +334,9 @@ func runBalance(cx *CheckCtx, prop string) {
 					ok := tc.from == paramTerm(tb, m, "from") && tc.to == paramTerm(tb, m, "to") && tc.amt == paramTerm(tb, m, "amount")
 					cx.decide(ok, "caller-binding", key, "passes its from/to/amount unchanged", name+" calls transfer("+tc.from.pretty()+", "+tc.to.pretty()+", "+tc.amt.pretty()+") instead of its own from/to/amount", tc.call.Where(w))
 				}
-				if name != "NewEpoch" && name != "Transfer" {
+				// (TransferX is left to C05: that a refused transferX faults is one of the two ways the container
+				// fee is atomic; for the balance invariants a refusal that returns quietly changes nothing)
+				if name != "NewEpoch" && name != "Transfer" && name != "TransferX" {
 					// Alphabet methods reach a normal exit only with a successful transfer
 					okx := true
 					for _, ex := range a.Exits() {
@@ -460,7 +462,9 @@ func runBalance(cx *CheckCtx, prop string) {
 				}
 			default:
 				if prop == "C01" {
-					cx.violated("single-writer", skey, "Balance method writes an unexpected key "+s.Args[1].pretty()+" (neither an account record nor the supply)", s.Where(w))
+					// a key with another leading constant is neither an account record nor the supply: bookkeeping
+					// of its own, nothing the invariant speaks about; a key without a leading constant could be either
+					cx.decide(keyFamily(s.Args[1]) != "", "single-writer", skey, "a key of another family ("+keyFamily(s.Args[1])+"): neither an account record nor the supply", "Balance method writes a key without a constant family prefix, "+s.Args[1].pretty()+": it cannot be told apart from an account record or the supply", s.Where(w))
 				}
 			}
 		}
@@ -905,6 +909,20 @@ func runC09(cx *CheckCtx) {
 					return false
 				})
 				cx.decide(okE, "refund-guard", "balance.NewEpoch>transfer/exhaustive", "every scanned lock with Until ≠ 0 and epochNum ≥ Until is refunded by this tick", "a tick does not release every expired lock (epochNum ≥ Until): "+whyE+"; the funds stay on the lock account", tc.call.Where(w))
+				// … and the scan itself is reached by every tick: no normal return goes round the loop. A way round
+				// that depends on a stored key nobody in the contract writes cannot be taken (the read is nil for ever).
+				written := writtenFamilies(cx, "balance")
+				okS, whyS := alwaysReached(a, tc.call, func(es *CNF) bool {
+					for _, f := range a.lt.lits {
+						if f.Kind == KNil && f.A != nil && f.A.Op == "read" && len(f.A.Args) > 0 {
+							if fam := keyFamily(f.A.Args[0]); fam != "" && !written[fam] && a.holdsAt(es, -a.litNil(f.A)) {
+								return true
+							}
+						}
+					}
+					return false
+				})
+				cx.decide(okS, "refund-guard", "balance.NewEpoch>transfer/scan-always", "every tick that returns normally has scanned the accounts", "a tick can return normally without scanning the accounts ("+whyS+"): locks that expire at such a tick are not released by it", tc.call.Where(w))
 				cx.decide(a.factGE(st, epoch, until), "refund-guard", "balance.NewEpoch>transfer/expired", "epochNum ≥ Until holds at the refund", "a lock can be released at a tick with epoch < Until (or is kept at epoch = Until)", tc.call.Where(w))
 				// scanned key comes from a Find over family a
 				fromAlts := tb.Alts(tc.from)
@@ -1147,4 +1165,54 @@ func checkSharedStructs(cx *CheckCtx, pkgRel string) {
 	if len(names) == 0 {
 		cx.holds("loader", pkgRel+"/shared-structs", fmt.Sprintf("%d package-level struct variables: none is returned or copied into a written local", nGlobals))
 	}
+}
+
+// transferXRefusalFaults: balance.TransferX reaches a normal exit only if the transfer helper answered true.
+func transferXRefusalFaults(cx *CheckCtx) bool {
+	m := cx.method("balance", "TransferX")
+	if m == nil {
+		return false
+	}
+	a := cx.run(m)
+	tcs := findTransferCalls(cx, m)
+	if len(tcs) == 0 {
+		return false
+	}
+	for _, tc := range tcs {
+		if _, isC := tc.call.Val.BoolConst(); isC {
+			continue
+		}
+		for _, ex := range a.Exits() {
+			if !a.holdsAt(ex.State, a.litB(tc.call.Val)) {
+				return false
+			}
+		}
+	}
+	return true
+}
+
+// writtenFamilies: the leading constants of every key some method of the contract (deployment included) stores under.
+func writtenFamilies(cx *CheckCtx, contract string) map[string]bool {
+	out := map[string]bool{}
+	c := cx.contract(contract)
+	if c == nil {
+		return out
+	}
+	ms := append([]*Method{}, c.Methods...)
+	if d := cx.method(contract, "_deploy"); d != nil {
+		ms = append(ms, d)
+	}
+	for _, m := range ms {
+		a := cx.run(m)
+		for _, s := range a.Effects() {
+			if isStore(s) && s.Effect == "put" {
+				if fam := keyFamily(s.Args[1]); fam != "" {
+					out[fam] = true
+				} else {
+					out["?"] = true
+				}
+			}
+		}
+	}
+	return out
 }
